@@ -20,9 +20,10 @@ def big_tree(n, multi=3):
 CONFIGS = [
     # (driver, workers, extra argv, strace delay injection)
     # the slow-downs are chosen so that the dispatcher outruns the workers and the back-pressure bound is reached well within N files
-    ("parblock", 4, [], "copy_file_range:delay_exit=20000"),
-    ("parblock", 64, [], "copy_file_range:delay_exit=400000"),
-    ("parblock", 1, [], "copy_file_range:delay_exit=5000"),
+    # (generously: the bound must also be reached when the machine is busy and the dispatcher itself is slow)
+    ("parblock", 4, [], "copy_file_range:delay_exit=60000"),
+    ("parblock", 64, [], "copy_file_range:delay_exit=1000000"),
+    ("parblock", 1, [], "copy_file_range:delay_exit=20000"),
     ("parfile", 8, ["--fsync"], "fsync:delay_exit=4000"),
     ("parfile", 64, [], "copy_file_range:delay_exit=20000"),
     ("parfile", 1, [], None),
@@ -80,7 +81,7 @@ def run(ctx):
     for (n, ci), r in zip(jobs, res):
         recs = r[0]
         if n == sizes[1]:
-            recs[0]["peakBase"] = peaks[ci]; recs[0]["fdSlack"] = 8
+            recs[0]["peakBase"] = peaks[ci]; recs[0]["fdSlack"] = 8 + peaks[ci] // 4      # tolerance for a not fully saturated smaller run
         all_recs.append(recs)
     verdicts, st2 = evplane.judge(all_recs, len(all_recs))
     ctx.states += st1["distinct"] + st2["distinct"]; ctx.transitions += st1["generated"] + st2["generated"]
@@ -100,7 +101,7 @@ def run(ctx):
     ctx.rule = ("trees of %d and %d files (empty, tiny and a few multi-block files in 20 directories), both drivers, workers {1,4,8,64}, with the "
                 "workers slowed down relative to the dispatcher/walker (strace delay on copy_file_range / fsync), under RLIMIT_NOFILE=1024; TLC "
                 "(Trace_Ev) requires exit 0 with every file identical, and the peak number of simultaneously open descriptors of the 4N run within "
-                "8 of the N run's. non-trivial = N >= 1000 with slowed workers; distinct by (size, configuration)" % sizes)
+                "8 + 25%% of the N run's (a per-file leak or an unbounded queue multiplies it). non-trivial = N >= 1000 with slowed workers; distinct by (size, configuration)" % sizes)
 
 def replay(ctx, path):
     print(open(path).read()[:3000])
